@@ -133,6 +133,60 @@ Fixpoint process_create_node (c : config) (kvs : list (skey * N)) : res :=
       match process_key_value c k v with ROk => process_create_node c rest | r => r end
   end.
 
+(* The kernel callbacks of the LimitsModule, handler by handler as written in
+   `impl SystemModule for LimitsModule` (before_invoke is OInvoke below). Each constructor is one
+   variant of the event enum the handler matches on; what is not a Start / IOAccess variant is
+   ignored by the module. CreateNodeEvent::Start carries every (key, value) of the new node in
+   the iteration order of the two nested BTreeMaps. *)
+Inductive hev :=
+| HCreateNodeStart (kvs : list (skey * N)) | HCreateNodeIO (a : io) | HCreateNodeEnd
+| HDropNodeStart | HDropNodeIO (a : io) | HDropNodeEnd
+| HMoveModuleIO (a : io)
+| HOpenStart (k : skey) | HOpenIO (a : io) | HOpenEnd
+| HReadIO (a : io) | HReadOnRead
+| HWriteStart (len : N) | HWriteIO (a : io)
+| HSetStart (k : skey) (len : N) | HSetIO (a : io)
+| HRemoveStart (k : skey) | HRemoveIO (a : io)
+| HScanKeysStart | HScanKeysIO (a : io)
+| HDrainStart | HDrainIO (a : io)
+| HScanSortedStart | HScanSortedIO (a : io).
+
+Definition handle (c : config) (s : state) (e : hev) : state * res :=
+  match e with
+  (* on_create_node *)
+  | HCreateNodeStart kvs => (s, process_create_node c kvs)
+  | HCreateNodeIO a => process_io c s a
+  | HCreateNodeEnd => (s, ROk)
+  (* on_drop_node *)
+  | HDropNodeIO a => process_io c s a
+  | HDropNodeStart | HDropNodeEnd => (s, ROk)
+  (* on_move_module *)
+  | HMoveModuleIO a => process_io c s a
+  (* on_open_substate *)
+  | HOpenStart k => (s, process_key c k)
+  | HOpenIO a => process_io c s a
+  | HOpenEnd => (s, ROk)
+  (* on_read_substate *)
+  | HReadIO a => process_io c s a
+  | HReadOnRead => (s, ROk)
+  (* on_write_substate *)
+  | HWriteStart len => (s, process_value c len)
+  | HWriteIO a => process_io c s a
+  (* on_set_substate: key, then value *)
+  | HSetStart k len => (s, process_key_value c k len)
+  | HSetIO a => process_io c s a
+  (* on_remove_substate *)
+  | HRemoveStart k => (s, process_key c k)
+  | HRemoveIO a => process_io c s a
+  (* on_scan_keys / on_drain_substates / on_scan_sorted_substates *)
+  | HScanKeysStart => (s, ROk)
+  | HScanKeysIO a => process_io c s a
+  | HDrainStart => (s, ROk)
+  | HDrainIO a => process_io c s a
+  | HScanSortedStart => (s, ROk)
+  | HScanSortedIO a => process_io c s a
+  end.
+
 (* The limit-relevant events of an execution.
    OKey        OpenSubstateEvent::Start, RemoveSubstateEvent::Start   -> process_substate_key
    OValue      WriteSubstateEvent::Start                              -> process_substate_value
@@ -157,7 +211,8 @@ Inductive op :=
 | OAssertCanAddEvent
 | OAddEventUnchecked (size : N)
 | OPanicMsg (size : N)
-| OLockFeeEmit (size : N).
+| OLockFeeEmit (size : N)
+| OH (e : hev).        (* a kernel callback dispatched to the LimitsModule handler *)
 
 Definition before_invoke (c : config) (s : state) (size : N) : res :=
   if depth s =? max_call_depth c then RErr CallDepthReached
@@ -207,7 +262,15 @@ Definition step (c : config) (f : flags) (s : state) (o : op) : state * res :=
       | (s', ROk) => (s', ROk)
       | (s', _) => (s', RPanic)
       end
+  | OH e => if limits_on f then handle c s e else (s, ROk)
   end.
+
+(* the call-depth check with `>=` instead of `==` (not the code: used to state that the two agree
+   on every reachable state) *)
+Definition before_invoke_ge (c : config) (s : state) (size : N) : res :=
+  if max_call_depth c <=? depth s then RErr CallDepthReached
+  else if max_invoke c <? size then RErr (InvokeExceeded size)
+  else ROk.
 
 (* driving the module object directly: every call is answered, the object lives on after an Err *)
 Fixpoint run_all (c : config) (f : flags) (s : state) (ops : list op) : list res * state :=
